@@ -38,6 +38,11 @@ impl<T> SerialMap<T> {
         self.elems.is_empty()
     }
 
+    #[cfg(feature = "verif-hooks")]
+    pub(crate) fn verif_iter(&self) -> impl Iterator<Item = (u32, &T)> {
+        self.elems.iter().map(|(k, v)| (*k, v))
+    }
+
     pub(crate) fn entry(&mut self, serial: u32) -> Option<OccupiedEntry<'_, u32, T>> {
         match self.elems.entry(serial) {
             Entry::Occupied(entry) => Some(entry),
